@@ -83,7 +83,14 @@ impl<'c> Prober<'c> {
 
     fn render<B: Mp4Box>(&mut self, kind: &'static str, path: &dyn Fn() -> String, b: &B) {
         self.obs.boxes.insert(kind);
-        self.call(&|| format!("{}.to_json", path()), || b.to_json().map_err(|e| e.to_string()), &|v| format!("{:?}", v), &|_| 0);
+        // rendered JSON is compared as a value: object key order (HashMap iteration order inside ilst) is not part of the result
+        self.call(&|| format!("{}.to_json", path()), || b.to_json().map_err(|e| e.to_string()), &|v: &std::result::Result<String, String>| match v {
+            Ok(s) => match serde_json::from_str::<serde_json::Value>(s) {
+                Ok(j) => format!("Ok({})", j),
+                Err(_) => format!("Ok(unparsable {:?})", s),
+            },
+            Err(e) => format!("Err({})", e),
+        }, &|_| 0);
         self.call(&|| format!("{}.summary", path()), || b.summary().map_err(|e| e.to_string()), &|v| format!("{:?}", v), &|_| 0);
         self.call(&|| format!("{}.box_size", path()), || (b.box_size(), u32::from(b.box_type())), &|v| format!("{:?}", v), &|_| 0);
     }
@@ -92,10 +99,11 @@ impl<'c> Prober<'c> {
         self.render("meta", path, m);
         if let MetaBox::Mdir { ilst: Some(ilst) } = m {
             self.render("ilst", &|| format!("{}.ilst", path()), ilst);
-            let mut keys: Vec<_> = ilst.items.keys().map(|k| format!("{:?}", k)).collect();
-            keys.sort();
-            for (k, it) in ilst.items.iter() {
-                self.render("data", &|| format!("{}.ilst.{:?}.data", path(), k), &it.data);
+            // HashMap iteration order is per instance: visit the items in a fixed order
+            let mut items: Vec<_> = ilst.items.iter().map(|(k, it)| (format!("{:?}", k), it)).collect();
+            items.sort_by(|a, b| a.0.cmp(&b.0));
+            for (k, it) in items.iter() {
+                self.render("data", &|| format!("{}.ilst.{}.data", path(), k), &it.data);
             }
         }
     }
